@@ -114,6 +114,7 @@ class MatchDistancePre(Contract):
     """match_tracks (method='distance'): call-site safety of the distance matrix -- the frame may be empty"""
     key = f"{TR}:DropletTrackList.from_emulsion_time_course.<match_tracks>#1"
     modular = False
+    prefer_variants = {f"{co.EM}:Emulsion.data": "frame"}
 
     def cases(self):
         return [dict(grid=g, alive=n) for g in ("none", "given") for n in (0, 1, 2)]
